@@ -58,6 +58,32 @@ def writers_agree(obj, data, prop):
     obj.write_to(g)
     if g.getvalue() != b"HEAD" + data:
         raise PropertyViolation(prop + ".write_to_offset", "write_to(stream positioned after 4 earlier bytes) did not append exactly the bytes of read()", key=prop + ".write_to_vs_read")
+    # file objects that sit on top of another file (compressing writers): what comes out after
+    # decompression is the same bytes
+    import bz2
+    import gzip
+    import lzma
+
+    fd, zname = tempfile.mkstemp(prefix="rvverif_z_")
+    os.close(fd)
+    try:
+        for label, opener in (("gzip", gzip.open), ("bz2", bz2.open), ("lzma", lzma.open)):
+            with opener(zname, "wb") as f:
+                obj.write_to(f)
+            try:
+                with opener(zname, "rb") as f:
+                    got = f.read()
+            except Exception as e:  # noqa: BLE001 - the compressed stream itself is damaged
+                raise PropertyViolation(prop + ".write_to_layered", "write_to(%s file): what was written cannot be decompressed again (%s: %s)" % (label, type(e).__name__, e), key=prop + ".write_to_vs_read")
+            if got != data:
+                raise PropertyViolation(prop + ".write_to_layered", "write_to(%s file): decompressing gives %d bytes that differ from read() (%d bytes)" % (label, len(got), len(data)), key=prop + ".write_to_vs_read")
+            if len(data) < 200000:
+                break  # the other two compressors only for big payloads (they are slow)
+    finally:
+        try:
+            os.unlink(zname)
+        except OSError:
+            pass
     # real files: opened for writing, and opened for appending after other content
     fd, name = tempfile.mkstemp(prefix="rvverif_w_")
     os.close(fd)
